@@ -26,6 +26,11 @@
 #define H_HTAB_MODEL_CAP 16
 #endif
 #include "h.h"
+#if H_CBMC
+#include "h_alloc_native.h"
+#include "h_hash_const.h"
+#include "htab_model_bounded.h"
+#endif
 #include "mini_mir_pre.h"
 #if H_CBMC /* CBMC's free() records the block non-deterministically (a nondet flag per call): under --paths every such flag multiplies the paths.
               Blocks are never reused or inspected here (allocation discipline is C17's subject), so freeing is a no-op in the model. */
@@ -127,7 +132,9 @@ static void h_build_module (int k) {
     if (s == S_IMPORT) { a = h_new_item (k, 2 * n, MIR_import_item); a->u.import_id = h_nm[n]; }
     else if (s == S_FWDDEF) { a = h_new_item (k, 2 * n, MIR_forward_item); a->u.forward_id = h_nm[n]; }
     else { a = h_new_item (k, 2 * n, MIR_export_item); a->u.export_id = h_nm[n]; }
-    H_ASSERT (add_item (ctx, a) == a, "declaration item entered into the module");
+    /* source order: `export x` / `forward x` BEFORE a function (add_item replaces the declaration by the definition in the table),
+       `export x` AFTER a data definition (add_item marks the definition): both orders of the front ends are represented */
+    if (s != S_XDATA) H_ASSERT (add_item (ctx, a) == a, "declaration item entered into the module");
     if (s == S_XDATA) {
       d = h_new_item (k, 2 * n + 1, MIR_data_item);
       d->u.data = &h_data[k][n];
@@ -141,6 +148,7 @@ static void h_build_module (int k) {
     }
     if (d != NULL) {
       H_ASSERT (add_item (ctx, d) == d, "definition entered into the module");
+      if (s == S_XDATA) H_ASSERT (add_item (ctx, a) == a, "export after the definition entered into the module");
       H_ASSERT (a->ref_def == d, "export/forward declaration chained to its definition");
       H_ASSERT (d->export_p == (s != S_FWDDEF), "definition is marked exported exactly when an export was declared");
     }
@@ -250,6 +258,22 @@ static void h_step_link (int r) {
   for (int k = 0; k < 3; k++) if (h_inq[k]) { h_linked[k] = 1; h_inq[k] = 0; }
 }
 
+#ifndef H_OPS /* the step alphabet of this obligation: H_NOPS step codes (0-2 load M1-M3, 3 load_external x, 4 load_external y, 5 link, 6 link with resolver) */
+#define H_OPS 0, 1, 2, 3, 4, 5, 6
+#define H_NOPS 7
+#endif
+static void h_do_step (unsigned op) {
+  switch (op) {
+  case 0: h_step_load (0); break;
+  case 1: h_step_load (1); break;
+  case 2: h_step_load (2); break;
+  case 3: h_step_ext (0); break;
+  case 4: h_step_ext (1); break;
+  case 5: h_step_link (0); break;
+  default: h_step_link (1); break;
+  }
+}
+
 void harness (void) {
   h_setup_ctx ();
   for (int k = 0; k < 3; k++) h_build_module (k);
@@ -257,26 +281,31 @@ void harness (void) {
   static const int h_pin[H_NSTEPS + 1] = {H_PIN};
   h_perm = h_pin[0];
 #else
+#ifdef H_PERM /* configurations without an exported function never read the flag */
+  h_perm = H_PERM;
+#else
   if (nd_bool ()) h_perm = 1; else h_perm = 0; /* a branch, so that the value is a CONSTANT on each path (cbmc --paths does not learn values
                                                   from branch conditions: a symbolic flag would fork again at every later use) */
+#endif
 #endif
   MIR_set_func_redef_permission (h_ctx, h_perm);
   /* every check is made when a step completes, so the histories of exactly H_NSTEPS steps cover all shorter ones (prefixes) */
   for (unsigned s = 0; s < H_NSTEPS; s++) {
 #ifdef H_PIN
-    unsigned op = (unsigned) h_pin[s + 1];
+    h_do_step ((unsigned) h_pin[s + 1]);
 #else
-    unsigned op = (unsigned) nd_below (7);
-#endif
-    switch (op) {
-    case 0: h_step_load (0); break;
-    case 1: h_step_load (1); break;
-    case 2: h_step_load (2); break;
-    case 3: h_step_ext (0); break;
-    case 4: h_step_ext (1); break;
-    case 5: h_step_link (0); break;
-    default: h_step_link (1); break;
+    { /* the step kind is chosen by a chain of branches with a CONSTANT argument each (one path per alternative) */
+      static const unsigned h_ops[7] = {H_OPS};
+      unsigned idx = (unsigned) nd_below (H_NOPS);
+      if (idx == 0 || H_NOPS == 1) h_do_step (h_ops[0]); /* `|| H_NOPS == k` makes the last alternative the unconditional else (no dead continuation) */
+      else if (idx == 1 || H_NOPS == 2) h_do_step (h_ops[1]);
+      else if (idx == 2 || H_NOPS == 3) h_do_step (h_ops[2]);
+      else if (idx == 3 || H_NOPS == 4) h_do_step (h_ops[3]);
+      else if (idx == 4 || H_NOPS == 5) h_do_step (h_ops[4]);
+      else if (idx == 5 || H_NOPS == 6) h_do_step (h_ops[5]);
+      else h_do_step (h_ops[6]);
     }
+#endif
 #if H_CBMC && !defined(H_REAL_HTAB)
     H_ASSERT (h_itab.bound < H_HTAB_MODEL_CAP && h_strtab.bound < H_HTAB_MODEL_CAP, "capacity of the table model is never reached (no history is cut off)");
 #endif
